@@ -1,6 +1,8 @@
 """C01 - scope state lookup follows lexical nesting (innermost supplier wins)."""
-from harness.legs import cfg_text, leg_m, leg_mutant, leg_r
-from props.scopes_common import ScopesDriver
+import random
+
+from harness.legs import cfg_text, leg_m, leg_mutant, leg_r, leg_t_gen
+from props.scopes_common import TRACE_KW, ScopesDriver, gen_trace
 
 SPEC = "Scopes"
 MANIFEST = dict(
@@ -39,6 +41,11 @@ def run(rep, work, tier, seed):
                    cfg_text(dict(small, Bug="no_restore"), spec="Spec", invariants=INVS, properties=PROPS),
                    ["LexicalLookup", "Restored"])
     leg_r(rep, work, SPEC, f"conf_{tier}", cfg_text(conf, invariants=INVS), lambda: ScopesDriver(types))
+    # leg T: random programs beyond the exhaustive bound (depth 6, ~28 operations, 1 task(s)) validated by a trace
+    # module generated from Scopes.tla
+    rnd = random.Random(seed * 13 + 1)
+    traces = [gen_trace(rnd, ntasks=1) for _ in range(150 if tier == "quick" else 2000)]
+    leg_t_gen(rep, work, SPEC, f"trace_{tier}", traces, **TRACE_KW)
     rep.assumptions += [
         "state classes are drawn from a fixed family: A (default-constructible), A2 (subclass of A), B (required "
         "attribute); value-level validation is C05",
